@@ -11,6 +11,7 @@ func init() {
 			ruleBuilderBinding(c, "R2")
 			ruleSummaryByBuilder(c, "R3")
 			ruleRemoversUpdateTreeSummary(c, "R4")
+			ruleSummaryRendering(c, "R5")
 			ruleRecountFilter(c, "R4c")
 			ruleExhaustiveWalks(c, "R4d", []string{"tree.(*node).countMethods", "tree.(*node).routes"}, "the recount and Routes() walk every node")
 			ruleSummaryLockset(c, "R6")
